@@ -2213,7 +2213,18 @@ impl<'a, 'b, W: Write> SerializeMap for MapSer<'a, 'b, W> {
                 }
                 Err(Error::Unexpected { msg }) if msg == "non-scalar key" => {
                     self.ser.write_anchor_for_complex_node()?;
-                    self.ser.write_indent(self.depth)?;
+                    // Same alignment as for scalar keys: a map that started inline after a dash
+                    // continues two columns in from the dash, not at a whole indentation step.
+                    if self.align_after_dash && self.ser.at_line_start {
+                        let base = self.depth.saturating_sub(1);
+                        for _ in 0..self.ser.indent_step * base {
+                            self.ser.out.write_char(' ')?;
+                        }
+                        self.ser.out.write_str("  ")?; // width of "- "
+                        self.ser.at_line_start = false;
+                    } else {
+                        self.ser.write_indent(self.depth)?;
+                    }
                     self.ser.out.write_str("? ")?;
                     self.ser.at_line_start = false;
 
